@@ -1,4 +1,4 @@
-from planlib import desc_fuzz
+from planlib import desc_fuzz, WRAP_FLAGS, WRAP_SRCS
 FNS = ["reim_fft_simple", "reim_ifft_simple", "reim_fftvec_mul_simple", "reim_fftvec_addmul_simple", "reim_from_znx64_simple", "reim_to_znx64_simple",
        "cplx_fft_simple", "cplx_ifft_simple", "cplx_fftvec_mul_simple", "cplx_fftvec_addmul_simple", "cplx_from_znx32_simple", "cplx_from_tnx32_simple",
        "cplx_to_tnx32_simple", "reim4_fftvec_mul_simple", "reim4_fftvec_addmul_simple", "reim4_from_cplx_simple", "reim4_to_cplx_simple",
@@ -17,16 +17,18 @@ def _jobs(tier):
 
 PLAN_ID = "C15"
 PLAN = dict(
-    src="props/c15.cpp", flavour="asan",
+    src="props/c15.cpp", flavour="asan", extra_srcs=WRAP_SRCS, extra_link=WRAP_FLAGS,
     rule="a case is a history of 50..400 calls generated from the descriptor: the 17 cached *_simple functions with varying dimension, "
          "divisor, log2bound / log2overhead (35% of the calls deliberately re-use an earlier (function, dimension) with another parameter), "
          "module entry points (small product, vmp, svp, normalize, dft+idft) on shared live modules of both types; every buffer at a generated "
          "byte offset 0..56 / guard side with generated prefill of outputs and scratch. Oracle: (a) each *_simple call is bit-identical to the "
-         "same call through a table built fresh for exactly its parameters, (b) with the descriptor's probability an earlier call of the history "
+         "same call through a table built fresh for exactly its parameters, and one module-level call in three (N<=1024) to the same call through "
+         "a module created for that call from heap memory with generated initial contents (link-time malloc interposition) and destroyed afterwards, (b) with the descriptor's probability an earlier call of the history "
          "is re-issued with different placement and prefill and must be bit-identical. Non-trivial: the history contains a re-issue separated "
          "from its original by a call of the same function with a different dimension or parameter. Distinct = distinct descriptor.",
     assumptions=["parameters stay inside each function's documented domain (log2bound<=50 for from_znx64, |x/d| small for conversions)"],
     quick=_jobs("quick"), thorough=_jobs("thorough"),
     fuzz=desc_fuzz("C15", fix=dict(maxlog=(2, 9), len=(50, 120)), runs=20000),
-    required_classes=dict(all=["fn:" + f for f in FNS] + ["repeat_after_other_params", "simple:m=1 and m=65536 in one history", "simple:m>=4096", "subnormal-range operands"]),
+    required_classes=dict(all=["fn:" + f for f in FNS] + ["repeat_after_other_params", "simple:m=1 and m=65536 in one history", "simple:m>=4096", "subnormal-range operands",
+                               "fresh-module == long-lived module (heap fill varied)"]),
 )
